@@ -68,14 +68,14 @@ type dialOutcome struct {
 
 func runC02(c *harness.Ctx) {
 	t := c.T
-	kind := t.Draw("kind", 6)
+	kind := t.Draw("kind", 7)
 	iat := 0
 	setBias(false)
 	id := genObfs4Identity(c, iat)
 	rid := refIdentity(id)
 	cf, _ := transports.Get("obfs4").ClientFactory("")
 	ending := false
-	kinds := []string{"control", "client-wrong-identity", "impostor-server", "tampered-response", "concurrent-clients", "impostor-low-order"}
+	kinds := []string{"control", "client-wrong-identity", "impostor-server", "tampered-response", "concurrent-clients", "impostor-low-order", "low-order-identity-key"}
 	c.Info["kind"] = kinds[kind]
 	c.Feature("kind-" + kinds[kind])
 	start := time.Now()
@@ -303,6 +303,44 @@ func runC02(c *harness.Ctx) {
 		} else {
 			mustFail(&o, "impostor ("+c.Info["impostor"].(string)+")")
 		}
+	case 6: // bridge line whose identity public key is a low-order point: nobody holds a matching private key
+		l := c.Net.NewLink("c", "r")
+		configurePipe(c, l.AB, "c2s")
+		configurePipe(c, l.BA, "s2c")
+		low := obfs4ref.LowOrderU()
+		bad := rid
+		bad.Pub = low[t.Draw("lowkey", len(low))]
+		if t.Draw("noncanon", 3) == 2 {
+			bad.Pub[31] |= 0x80 // non-canonical encoding of the same point
+		}
+		c.Info["identity_public_key"] = fmt.Sprintf("%x", bad.Pub)
+		seed := make([]byte, 24)
+		c.Rand.Fill("ref.seed", seed)
+		var o dialOutcome
+		c.S.Go("r/accept", func() {
+			// the impostor knows only the public bridge line; EXP(B,x) is all-zero whatever x is
+			var buf []byte
+			tmp := make([]byte, 8192)
+			for {
+				n, err := l.B.Read(tmp)
+				buf = append(buf, tmp[:n]...)
+				if req, perr := obfs4ref.ParseClientRequest(bad, nowHour(), buf); perr == nil {
+					eph := obfs4ref.NewKeypair(refEntropy{c, "ref.eph"})
+					pad := make([]byte, t.Draw("spad", 300))
+					resp, ks := obfs4ref.ServerReplyForged(bad, eph, req, pad)
+					sess := obfs4ref.NewSession(ks[:], false)
+					l.B.Write(append(append(resp, sess.Frame(obfs4ref.PacketPrngSeed, seed, 0)...), sess.Frame(obfs4ref.PacketPayload, []byte("IMPOSTOR DATA"), 0)...))
+					return
+				}
+				if err != nil {
+					return
+				}
+			}
+		})
+		dial("c", l, clientArgsFor(bad, iat, t.Draw("legacy", 2) == 1), &o)
+		c.S.Run(func() bool { return o.done }, 3*time.Minute)
+		c.Reached, c.Nontrivial = true, true
+		mustFail(&o, "impostor exploiting a low-order identity key in the bridge line")
 	case 3: // genuine server, response modified on the path
 		sf, err := obfs4Server(id)
 		if err != nil {
